@@ -316,10 +316,26 @@ func checkC16(c *Ctx) {
 				args = rest
 			}
 		}
-		u0 := sdf.Union2D(args...)
+		// the union is built from a scratch slice (with spare capacity) which the caller reuses afterwards for other, far away
+		// operands: neither the pruned nor the exhaustive path may be affected, and the caller's slice must come back unchanged
+		scratchArgs := append(make([]sdf.SDF2, 0, len(args)+6), args...)
+		u0 := sdf.Union2D(scratchArgs...)
 		u, ok := u0.(*sdf.UnionSDF2)
 		if !ok {
 			return
+		}
+		for j := range args {
+			if scratchArgs[j] != args[j] {
+				c.Violate("", fmt.Sprintf("Union2D argument-modified: entry %d of the caller's operand slice changed during construction (n=%d)", j, len(args)), map[string]any{"kind": "union2d-alias", "union_index": i})
+				return
+			}
+		}
+		if ru.P(0.5) {
+			farC, _ := sdf.Circle2D(scale * 0.2)
+			for j := range scratchArgs {
+				scratchArgs[j] = sdf.Transform2D(farC, sdf.Translate2d(v2.Vec{X: scale * (60 + float64(j)), Y: -scale * 70}))
+			}
+			scratchArgs = append(scratchArgs[:0], farC, farC)
 		}
 		if nested != nil && nestedLate {
 			nested.SetMin(sdf.PolyMin(scale * ru.LogR(0.05, 1)))
